@@ -180,6 +180,25 @@ Theorem c19_cwd_else_strip_steps_are_the_unstripped_site : forall (m : bool) (r 
 Proof. exact cwd_else_strip_steps_run. Qed.
 Print Assumptions c19_cwd_else_strip_steps_are_the_unstripped_site.
 
+(* ... and not only for today's order: EVERY step order in which, on both branches of the cwd statement, a removal loop has run by
+   the time of the spawn (steps_safe) keeps the authority's credential variables from the child - whatever is in a child's
+   environment under a credential name was put there by the call's own env.  The seeded order is not safe; neither is a removal
+   that depends on the call bringing no env. *)
+Theorem c19_any_safe_step_order_strips : forall (p : list sstep) (m : bool) (r : registry) (e : env) (q : spawn_req) (c : cmd) (k v : str),
+  steps_safe p = true ->
+  run_steps p m r q (cmd_new e) = Some c ->
+  In k (stripped_names r) -> getenv (cm_env c) k = Some v -> In (k, v) (req_env q).
+Proof. exact any_safe_step_order_strips. Qed.
+Print Assumptions c19_any_safe_step_order_strips.
+Example c19_step_orders_safe_or_not :
+  steps_safe modelled_steps = true
+  /\ steps_safe [SCwd; SStripIfNoCwd; SOwnEnv; SSpawn] = false
+  /\ steps_safe [SCwd; SOwnEnv; SStripCond; SSpawn] = false
+  /\ steps_safe [SCwd; SOwnEnv; SSpawn] = false
+  /\ steps_safe [SCwd; SStripIfCwd; SStripIfNoCwd; SOwnEnv; SSpawn] = true
+  /\ steps_safe [SOwnEnv; SStrip; SCwd; SSpawn] = true.
+Proof. exact step_orders_safe_or_not. Qed.
+
 (* The SPAWN PATH as a function of its arguments.  spawn_cmd is the command one of the three spawn sites builds (rip-tools
    shell.rs run_command for the bash / shell tool; ripd tasks/pipes.rs and tasks/pty.rs for background tasks, execution_mode
    absent = pipes) from the environment `e` of the authority, the registry `r` as it is at that moment and the request `q`
